@@ -229,6 +229,11 @@ func runApiPlan(t *testing.T, planAny any, ctl Ctl) *Result {
 				us.Close()
 			}
 			for _, se := range auth.VerifSessions() {
+				if !se.ExpiresAt.After(time.Now()) {
+					// an expired session may be collected by the session GC at any moment, also
+					// between the two snapshots around a request issued on a GC tick
+					continue
+				}
 				fmt.Fprintf(&b, "|%s@%d", se.ID, se.ExpiresAt.UnixNano())
 			}
 			return b.String()
